@@ -38,11 +38,12 @@ class NoEval(Exception):
 
 class Raised(Exception):
     """The evaluated code raises."""
-    def __init__(self, name, detail='', cls=None):
+    def __init__(self, name, detail='', cls=None, sure=False):
         Exception.__init__(self, '%s(%s)' % (name, detail))
         self.name = name
         self.detail = detail
         self.cls = cls          # ClassInfo when the exception class is defined in the analysed program
+        self.sure = sure        # raised by a `raise` statement of the analysed code or by a faithfully modelled dispatch
 
 
 class Diverged(Exception):
@@ -252,7 +253,7 @@ BUILTIN_FUNCS = ('len', 'max', 'min', 'range', 'abs', 'divmod', 'isinstance', 's
 BUILTIN_EXCS = tuple(EXC_PARENTS) + ('BaseException',)
 
 EXT_PURE = {
-    'struct.pack': _struct.pack, 'struct.unpack': _struct.unpack, 'struct.calcsize': _struct.calcsize,
+    'struct.pack': _struct.pack, 'struct.unpack': _struct.unpack, 'struct.calcsize': _struct.calcsize, 'struct.unpack_from': _struct.unpack_from,
     'math.ceil': _math.ceil, 'math.floor': _math.floor,
 }
 
@@ -466,8 +467,8 @@ class Evaluator(object):
                 return Builtin('int.from_bytes')
             if obj.name in ('bytes', 'bytearray') and name == 'fromhex':
                 return Builtin('%s.fromhex' % obj.name)
-            if obj.name in ('bytes', 'bytearray') and name == 'join':
-                raise NoEval('unbound join')
+            if obj.name in ('int', 'bytes', 'bytearray', 'str', 'list', 'dict') and not name.startswith('_'):
+                return Builtin('unbound:' + name)
             raise NoEval('attribute %s of builtin %s' % (name, obj.name))
         if isinstance(obj, Ext):
             full = '%s.%s' % (obj.name, name)
@@ -520,7 +521,7 @@ class Evaluator(object):
                 if tn in setters:
                     self._call_func(Func(setters[tn], obj), [value], {})
                     return
-            raise Raised('TypeError', '%s.%s has no setter for %s' % (obj.cls.name, name, type_names(value)[0]))
+            raise Raised('TypeError', '%s.%s has no setter for %s' % (obj.cls.name, name, type_names(value)[0]), sure=True)
         pp = obj.cls.find_plain_prop(name)
         if pp is not None:
             if pp.get('set') is None:
@@ -549,6 +550,8 @@ class Evaluator(object):
         if isinstance(f, Builtin):
             return self._call_builtin(f, args, kwargs)
         if isinstance(f, Ext):
+            if f.name.split('.')[0] in ('warnings', 'logging') or f.name.split('.')[-1] in ('debug', 'info', 'warning', 'warn'):
+                return None          # diagnostics do not contribute to any value computed here
             raise NoEval('call of %s (outside the analysed package) is not modelled' % f.name)
         if isinstance(f, Obj):
             c = f.cls.find_method('__call__')
@@ -662,6 +665,16 @@ class Evaluator(object):
             return r if n.startswith('bytes.') else VBuf(r)
         if n.startswith('m:'):
             return self._method(n[2:], recv, args, kwargs)
+        if n.startswith('unbound:'):
+            if not args:
+                raise Raised('TypeError', 'unbound method needs a receiver')
+            return self._call(self._native_attr(_num(args[0]), n[8:]), args[1:], kwargs)
+        if n == 'type':
+            if len(args) == 1 and isinstance(args[0], Obj):
+                return ClassRef(args[0].cls)
+            if len(args) == 1 and type_names(args[0])[0] in BUILTIN_TYPES:
+                return Builtin(type_names(args[0])[0])
+            raise NoEval('type(%r)' % (args,))
         if n == 'len':
             return self._len(args[0])
         if n == 'isinstance':
@@ -870,6 +883,8 @@ class Evaluator(object):
 
     def _iter(self, v):
         v = _num(v) if not isinstance(v, Obj) else v
+        if isinstance(v, ClassRef) and is_int_enum(v.ci):
+            return [m for m in v.ci.enum_members().values() if isinstance(m, int)]
         if isinstance(v, (list, tuple, range, set, frozenset, bytes, str)):
             if len(v) > 70000:
                 raise NoEval('iteration over %d elements' % len(v))
@@ -952,6 +967,8 @@ class Evaluator(object):
         if t in (ast.In, ast.NotIn):
             if isinstance(b, VBuf):
                 b = b.tobytes()
+            if isinstance(b, ClassRef) and is_int_enum(b.ci):
+                b = self._iter(b)
             if isinstance(b, (Obj, ClassRef, Func)):
                 raise NoEval('membership in %r' % (b,))
             if isinstance(a, VBuf):
@@ -1055,13 +1072,13 @@ class _Frame(object):
             raise NoEval('bare raise')
         v = self.ev(node.exc)
         if isinstance(v, Builtin) and v.name.startswith('exc:'):
-            raise Raised(v.name[4:], '')
+            raise Raised(v.name[4:], '', sure=True)
         if isinstance(v, ExcV):
-            raise Raised(v.name, ', '.join(str(a) for a in v.args)[:120], v.cls)
+            raise Raised(v.name, ', '.join(str(a) for a in v.args)[:120], v.cls, sure=True)
         if isinstance(v, ClassRef):
-            raise Raised(v.ci.name, '', v.ci)
+            raise Raised(v.ci.name, '', v.ci, sure=True)
         if isinstance(v, Obj):
-            raise Raised(v.cls.name, '', v.cls)
+            raise Raised(v.cls.name, '', v.cls, sure=True)
         raise NoEval('raise of %r' % (v,))
 
     def st_Assign(self, node):
